@@ -214,10 +214,13 @@ Fixpoint strand_led (lC lS : wled) (prev : snap * snap) (tr : list tstep) (steps
 Definition c10_no_strand_led (c : hcase) : bool :=
   strand_led wled0 wled0 (snap_of flow0, snap_of flow0) (trace_of c) (h_steps c).
 
-(* 1 fidelity, 2 connection frames, 3 a conforming frame was refused, 4 stranding *)
+(* 1 fidelity, 2 connection frames, 3 a conforming frame was refused, 4 stranding,
+   6 a frame larger than any SETTINGS_MAX_FRAME_SIZE the receiver announced (it would answer FRAME_SIZE_ERROR
+     and nothing after it would be delivered) *)
 Definition c10_failures (c : hcase) : list N :=
   (if c10_fidelity c then [] else [1]) ++ (if c10_conn c then [] else [2]) ++
-  (if c10_accepts c then [] else [3]) ++ (if c10_no_strand c && c10_no_strand_led c then [] else [4]).
+  (if c10_accepts c then [] else [3]) ++ (if c10_no_strand c && c10_no_strand_led c then [] else [4]) ++
+  (if c09_sizes c then [] else [6]).
 Definition c10_prop_ok (c : hcase) : bool := match c10_failures c with [] => true | _ => false end.
 
 (* indices (from 0) of the cases on which f fails *)
